@@ -76,10 +76,32 @@ func GenValue(t *rapid.T, p *Pool, cfg GenCfg, depth int) any {
 }
 
 func genNested(t *rapid.T, p *Pool) any {
+	props := map[string]any{p.Keys[0]: GenScalar(t)}
+	refs := map[string]any{}
+	// mostly the minimal shape; sometimes a second (array) property and single / array references
+	if rapid.IntRange(0, 2).Draw(t, "nrich") == 0 {
+		if rapid.Bool().Draw(t, "nparr") {
+			props[p.Keys[1]] = []any{GenScalar(t), GenScalar(t)}
+		}
+		nr := rapid.IntRange(0, 2).Draw(t, "nnr")
+		for i := 0; i < nr; i++ {
+			pk := rapid.SampledFrom(p.Preds).Draw(t, "nrk")
+			if rapid.Bool().Draw(t, "nrarr") {
+				n := rapid.IntRange(1, 2).Draw(t, "nrn")
+				arr := make([]any, n)
+				for j := range arr {
+					arr[j] = rapid.SampledFrom(p.IDs).Draw(t, "ntgt")
+				}
+				refs[pk] = arr
+			} else {
+				refs[pk] = rapid.SampledFrom(p.IDs).Draw(t, "ntgt")
+			}
+		}
+	}
 	return map[string]any{
 		"id":    p.P[0] + ":n" + fmt.Sprint(rapid.IntRange(0, 1).Draw(t, "nid")),
-		"props": map[string]any{p.Keys[0]: GenScalar(t)},
-		"refs":  map[string]any{},
+		"props": props,
+		"refs":  refs,
 	}
 }
 
